@@ -1,7 +1,8 @@
 """C15  No hidden shared state: results, arguments, caches, instances (many modules)."""
 import copy
 
-from vf.claim import Claim, assume, enum, fork, pick, raises_, real, symbolic_mode, untraced
+from vf.claim import Claim, assume, enum, fork, pick, raises_, real, symbolic_mode, untraced, warm_cold
+from vf.ref.theory import spelled
 from vf.fuel import with_fuel
 from vf.ref import theory as T
 
@@ -9,7 +10,7 @@ import mingus.extra.fft as fft
 from mingus.containers import Bar, Composition, Note, NoteContainer, Track
 from mingus.containers.instrument import Instrument, MidiInstrument, Piano
 from mingus.containers.suite import Suite
-from mingus.core import chords, intervals, keys, progressions, scales
+from mingus.core import chords, intervals, keys, notes, progressions, scales, value
 from mingus.midi.midi_file_out import MidiFile
 from mingus.midi.midi_track import MidiTrack
 from mingus.midi.sequencer import Sequencer
@@ -76,6 +77,11 @@ def _reset():
     keys._key_cache.clear()
     chords._triads_cache.clear()
     chords._sevenths_cache.clear()
+    # and every other piece of module-level state the harness can find (a memo table added by a change to the repo)
+    from vf import ext
+
+    ext.ensure_state()
+    ext.reset_state()
 
 
 def c15_history(qk: int, h1: int, k1: int, m1: int, h2: int, k2: int, m2: int) -> bool:
@@ -391,10 +397,46 @@ def c15_fft_step(n: int, v: float, f: float, cold_state: bool) -> bool:
     return bool(lo2 < v2) and bool(v2 <= CACHE[n2])
 
 
+# warm/cold with a symbolic query: the prior call comes from a short list of representative calls, the query's
+# arguments are symbolic; the query must return what it returns in the initial state of all module-level state
+WQ_SUFFIX = ["", "m", "m7", "M7", "7", "dim7", "m/M7", "6/9", "7b5", "sus4", "11"]
+WQ = {
+    "intervals.determine": (
+        [("C", "E", True), ("C#", "E", False), ("Cb", "E#", True), ("B", "C", False)],
+        lambda a: intervals.determine(a[0], a[1], a[2]),
+        lambda n1, n2, up: intervals.determine(n1, n2, up),
+        lambda n1, n2: spelled(n1, 1) and spelled(n2, 1),
+    ),
+    "notes.reduce_accidentals": (
+        [("C#b",), ("Cb",), ("B#",), ("E##",)],
+        lambda a: (notes.reduce_accidentals(a[0]), notes.remove_redundant_accidentals(a[0]), notes.augment(a[0]), notes.diminish(a[0]), notes.note_to_int(a[0])),
+        lambda n1, n2, up: (notes.reduce_accidentals(n1), notes.remove_redundant_accidentals(n1), notes.augment(n1), notes.diminish(n1), notes.note_to_int(n1), notes.is_enharmonic(n1, n2)),
+        lambda n1, n2: spelled(n1, 2) and spelled(n2, 1),
+    ),
+    "chords.from_shorthand": (
+        [("Cm7",), ("C#m/M7",), ("Cbdim7",), ("Am|C",)],
+        lambda a: chords.from_shorthand(a[0]),
+        lambda n1, n2, up: chords.from_shorthand(n1 + pick(WQ_SUFFIX, len(n2))),
+        lambda n1, n2: spelled(n1, 1) and len(n2) < len(WQ_SUFFIX),
+    ),
+}
+
+
+def c15_warm_query(pi: int, n1: str, n2: str, up: bool) -> bool:
+    priors, pf, qf, _ = WQ[P["fn"]]
+    a = pick(priors, pi)
+    up = fork(up)
+    return warm_cold(lambda: pf(a), lambda: qf(n1, n2, up))
+
+
 def claims(tier):
     q = tier == "quick"
     cl = []
     depth = 1 if q else 2
+    for fn in sorted(WQ):
+        if q and fn != "intervals.determine":
+            continue
+        cl.append(Claim("warm_query[%s]" % fn, c15_warm_query, params={"fn": fn, "np": 1 if q else 4}, group="c15_warm_query", pre=[lambda pi, n1, n2: 0 <= pi < P["np"] and WQ[P["fn"]][3](n1, n2)], timeout=900 if q else 3000, bounds="%s: prior call from %d representative calls %r; query arguments symbolic (names = letter + {#,b}^<=1..2; chord suffix = index into an 11-entry table, encoded as the length of the second string): warm result == result in the initial state" % (fn, 1 if q else 4, WQ[fn][0][: 1 if q else 4])))
     for qi in range(NB):
         nqk = 1 if q else 3
         cl.append(Claim("history[%s]" % _battery("C")[qi][0], c15_history, params={"qi": qi, "depth": depth, "qk0": qi % 3, "nqk": nqk}, group="c15_history", pre=[lambda qk, h1, k1, m1, h2, k2, m2: (qk == P["qk0"] if P["nqk"] == 1 else 0 <= qk < 3) and 0 <= h1 < NB and 0 <= k1 < 3 and 0 <= m1 < 3 and ((0 <= h2 < 6 and k2 == qk and m2 == 1) if P["depth"] > 1 else (h2 == 0 and k2 == 0 and m2 == 0))], timeout=1200 if q else 3400, per_path=60, bounds="query %s in %d key(s) after every history of one call from a %d-call battery x 3 keys x 3 in-place mutations of the returned value%s; then the query's own result is mutated and it is asked again" % (_battery("C")[qi][0], nqk, NB, "" if depth == 1 else " followed by one of the 6 memo-table-touching calls in the query's key with a nested edit of its result")))
